@@ -21,6 +21,7 @@ package main
 
 import (
 	"fmt"
+	"regexp"
 	"go/ast"
 	"go/parser"
 	"go/token"
@@ -222,6 +223,9 @@ func genNasLemmas(repo string, out string) ([]string, error) {
 	}
 	more, err := genNasDispatch(repo, covered, types)
 	if err != nil {
+		return nil, err
+	}
+	if err := genNasAccessors(repo); err != nil {
 		return nil, err
 	}
 	return append(skipped, more...), nil
@@ -893,4 +897,136 @@ func tsValueOctets(msg, goType string, optional bool) int {
 		}
 	}
 	return 0
+}
+
+// ---------------- accessor sweep (C09): bit fields inside IE values ----------------
+//
+// Every Get/Set accessor of nasType carries a line "// <field> Row, sBit, len = [r1, r2], s , n":
+// the field occupies n bits starting at bit s (8 = most significant) of octet r1 of the value.
+// For the fields that lie inside one octet (r1 = r2, s - n >= 0, n <= 8) a lemma states what the
+// annotation says: the setter puts the low n bits of its argument there and changes nothing else,
+// the getter reads them from there.  The annotation is the library's documentation of the layout,
+// not the standard (the standard is the oracle only for the octets listed in
+// lemmas/src/free5gclib/nas/nasType/lemmas_c09.go); what the sweep decides is that the code agrees
+// with its own layout table.
+
+var nasAccSkipped, nasAccCovered int
+
+func genNasAccessors(repo string) error {
+	dir := filepath.Join(repo, "src/free5gclib/nas/nasType")
+	types, err := parseNasTypes(dir)
+	if err != nil {
+		return err
+	}
+	fset := token.NewFileSet()
+	files, _ := filepath.Glob(filepath.Join(dir, "NAS_*.go"))
+	sort.Strings(files)
+	rowRe := regexp.MustCompile(`Row, sBit, len = \[(\d+), ?(\d+)\], ?(\d+) ?, ?(\d+)\s*$`)
+	var b strings.Builder
+	b.WriteString("//go:build verif\n\n// Code generated by govc (nasgen) from the layout annotations of nasType. DO NOT EDIT.\n\npackage nasType\n\nimport \"vspec/vc\"\n\nvar _ = vc.Imp\n\n")
+	nasAccSkipped, nasAccCovered = 0, 0
+	type acc struct {
+		row, sbit, n int
+		hasGet       bool
+		hasSet       bool
+	}
+	for _, fn := range files {
+		if strings.HasSuffix(fn, "_test.go") {
+			continue
+		}
+		f, err := parser.ParseFile(fset, fn, nil, parser.ParseComments)
+		if err != nil {
+			return err
+		}
+		accs := map[string]*acc{} // "Type.Field"
+		var order []string
+		for _, d := range f.Decls {
+			fd, ok := d.(*ast.FuncDecl)
+			if !ok || fd.Recv == nil || fd.Doc == nil || len(fd.Recv.List) != 1 {
+				continue
+			}
+			rt := strings.TrimPrefix(exprStr(fset, fd.Recv.List[0].Type), "*")
+			name := fd.Name.Name
+			isGet, isSet := strings.HasPrefix(name, "Get"), strings.HasPrefix(name, "Set")
+			if !isGet && !isSet {
+				continue
+			}
+			var m []string
+			for _, c := range fd.Doc.List {
+				if mm := rowRe.FindStringSubmatch(c.Text); mm != nil {
+					m = mm
+				}
+			}
+			if m == nil {
+				continue
+			}
+			r1, _ := strconv.Atoi(m[1])
+			r2, _ := strconv.Atoi(m[2])
+			s, _ := strconv.Atoi(m[3])
+			n, _ := strconv.Atoi(m[4])
+			if r1 != r2 || n > 8 || n < 1 || s-n < 0 || s > 8 {
+				nasAccSkipped++
+				continue
+			}
+			// scalar uint8 argument / result only
+			if isSet && (len(fd.Type.Params.List) != 1 || exprStr(fset, fd.Type.Params.List[0].Type) != "uint8") {
+				nasAccSkipped++
+				continue
+			}
+			if isGet && (fd.Type.Results == nil || len(fd.Type.Results.List) != 1 || exprStr(fset, fd.Type.Results.List[0].Type) != "uint8") {
+				nasAccSkipped++
+				continue
+			}
+			k := rt + "." + name[3:]
+			a := accs[k]
+			if a == nil {
+				a = &acc{row: r1, sbit: s, n: n}
+				accs[k] = a
+				order = append(order, k)
+			}
+			if a.row != r1 || a.sbit != s || a.n != n {
+				nasLayoutFindings = append(nasLayoutFindings, fmt.Sprintf("%s: getter and setter are annotated with different positions", k))
+				continue
+			}
+			if isGet {
+				a.hasGet = true
+			} else {
+				a.hasSet = true
+			}
+		}
+		for _, k := range order {
+			a := accs[k]
+			tn, field, _ := strings.Cut(k, ".")
+			t := types[tn]
+			if t == nil || !a.hasGet || !a.hasSet {
+				nasAccSkipped++
+				continue
+			}
+			sh := a.sbit - a.n
+			mask := (1 << uint(a.n)) - 1
+			fmt.Fprintf(&b, "// %s: bits %d..%d of octet %d\n// prop: C09\n", k, a.sbit, sh+1, a.row)
+			switch {
+			case t.OctetN == -1 && a.row == 0:
+				fmt.Fprintf(&b, "func vcLemma_acc_%s_%s(o uint8, v uint8) {\n\ta := &%s{Octet: o}\n\ta.Set%s(v)\n", tn, field, tn, field)
+				fmt.Fprintf(&b, "\tvc.Assert(\"set\", a.Octet == o&^(%#x<<%d)|(v&%#x)<<%d)\n\tvc.Assert(\"get\", a.Get%s() == v&%#x)\n", mask, sh, mask, sh, field, mask)
+				fmt.Fprintf(&b, "\tr := &%s{Octet: o}\n\tvc.Assert(\"read\", r.Get%s() == o>>%d&%#x)\n}\n\n", tn, field, sh, mask)
+			case t.OctetN > 0 && a.row < t.OctetN:
+				fmt.Fprintf(&b, "func vcLemma_acc_%s_%s(o [%d]uint8, v uint8) {\n\ta := &%s{Octet: o}\n\ta.Set%s(v)\n", tn, field, t.OctetN, tn, field)
+				fmt.Fprintf(&b, "\tvc.Assert(\"set\", a.Octet[%d] == o[%d]&^(%#x<<%d)|(v&%#x)<<%d)\n", a.row, a.row, mask, sh, mask, sh)
+				fmt.Fprintf(&b, "\tvc.Assert(\"others\", vc.Forall(0, %d, func(j int) bool { return j == %d || a.Octet[j] == o[j] }))\n", t.OctetN, a.row)
+				fmt.Fprintf(&b, "\tvc.Assert(\"get\", a.Get%s() == v&%#x)\n\tr := &%s{Octet: o}\n\tvc.Assert(\"read\", r.Get%s() == o[%d]>>%d&%#x)\n}\n\n", field, mask, tn, field, a.row, sh, mask)
+			case t.HasBuf:
+				fmt.Fprintf(&b, "// shape: buf %d\nfunc vcLemma_acc_%s_%s(buf []byte, v uint8) {\n", a.row+1, tn, field)
+				fmt.Fprintf(&b, "\tvar o [%d]uint8\n\tcopy(o[:], buf)\n\ta := &%s{Buffer: buf}\n\ta.Set%s(v)\n", a.row+1, tn, field)
+				fmt.Fprintf(&b, "\tvc.Assert(\"set\", a.Buffer[%d] == o[%d]&^(%#x<<%d)|(v&%#x)<<%d)\n", a.row, a.row, mask, sh, mask, sh)
+				fmt.Fprintf(&b, "\tvc.Assert(\"others\", vc.Forall(0, %d, func(j int) bool { return a.Buffer[j] == o[j] }))\n", a.row)
+				fmt.Fprintf(&b, "\tvc.Assert(\"get\", a.Get%s() == v&%#x)\n}\n\n", field, mask)
+			default:
+				nasAccSkipped++
+				continue
+			}
+			nasAccCovered++
+		}
+	}
+	return os.WriteFile(filepath.Join(dir, "zz_verif_lemma_generated_acc.go"), []byte(b.String()), 0o644)
 }
